@@ -100,6 +100,8 @@ def parse_specs(text, fname='<spec>'):
             cur.closures[loop[1]]['params'] = arg
         elif d == 'cret':
             cur.closures[loop[1]]['ret'] = arg
+        elif d == 'cprefix':
+            cur.closures[loop[1]]['prefix'] = arg
         elif d in ('requires', 'ensures', 'decreases', 'invariant', 'invariant_except_break', 'recommends', 'opens_invariants', 'no_unwind'):
             body = []
             while i < len(lines) and not lines[i].lstrip().startswith('@'):
@@ -194,14 +196,21 @@ def find_pattern(text, pattern, want_caps=False):
 
     for i in range(n):
         caps = {}
-        if isinstance(ps[0], tuple) and i > 0 and not (T[i - 1].k == rsx.P and T[i - 1].s in (';', '{', '}', '=', '(', ',')):
+        if isinstance(ps[0], tuple) and i > 0 and not (T[i - 1].k == rsx.P and T[i - 1].s in (';', '{', '}', '=', '(', ',', ':')):
             continue   # a leading capture starts at an expression / statement boundary
         e = match(i, 0, caps)
         if e is not None and e > i:
-            if want_caps:
-                res.append((T[i].a, T[e - 1].b, {k2: text[a:b] for k2, (a, b) in caps.items()}))
-            else:
-                res.append((T[i].a, T[e - 1].b))
+            res.append((T[i].a, T[e - 1].b, {k2: text[a:b] for k2, (a, b) in caps.items()}))
+    if isinstance(ps[0], tuple):
+        # a leading capture can start at several boundaries: keep, for every end position, the
+        # shortest match
+        best = {}
+        for (a, b, c) in res:
+            if b not in best or a > best[b][0]:
+                best[b] = (a, b, c)
+        res = sorted(best.values())
+    if not want_caps:
+        res = [(a, b) for (a, b, _c) in res]
     return res
 
 
@@ -508,10 +517,14 @@ def inject(text, fs, oblig_lines=None, what=''):
         if cinfo['ret']:
             hdr += ' -> (' + cinfo['ret'] + ')'
         spec_txt = _render(cls, fs.path, 'closure%d' % n, '                ') if cls else ''
+        prefix = cinfo.get('prefix') or ''
         if is_block:
             inserts.append((ba, hdr + ('\n' + spec_txt + '\n            ' if spec_txt else ' ')))
+            if prefix:
+                inserts.append(((ba + 1, ba + 1), ' ' + prefix + ' '))
         else:
-            inserts.append(((ba, bb), hdr + ('\n' + spec_txt + '\n            ' if spec_txt else ' ') + '{ ' + text[ba:bb] + ' }'))
+            inserts.append(((ba, ba), hdr + ('\n' + spec_txt + '\n            ' if spec_txt else ' ') + '{ ' + prefix + ' '))
+            inserts.append(((bb, bb), ' }'))
         if cinfo['params'] is not None:
             inserts.append(((pa, pb), cinfo['params']))
     for (bwhere, lp, blk) in fs.blocks:
@@ -565,7 +578,8 @@ def inject(text, fs, oblig_lines=None, what=''):
     # apply from the back
     def key(x):
         return x[0][0] if isinstance(x[0], tuple) else x[0]
-    for pos, ins in sorted(inserts, key=key, reverse=True):
+    inserts = [x for _i, x in sorted(enumerate(inserts), key=lambda t: (key(t[1]), t[0]), reverse=True)]
+    for pos, ins in inserts:
         if isinstance(pos, tuple):
             text = text[:pos[0]] + ins + text[pos[1]:]
         elif ins.startswith(' ->') or ins == ' ':
